@@ -101,7 +101,9 @@ class PersistentRemoteWorker(PersistentWorker, RemoteWorker):
                     logger.debug('New message signalling end of partial results')
                     self._results_pipe.child_end.put(result)
                     last_partial_result_signalled = True
-                    assert remote_counter == counter, f'{remote_counter} {counter}'
+                    if remote_counter != counter:
+                        # the worker was interrupted between counting a result and sending it
+                        logger.debug(f'Result counters differ at the end of partial results: {remote_counter} {counter}')
                     assert value is None
                     assert wid == self.id
                 else:
